@@ -256,6 +256,8 @@ func (c *ctx) fileWrites() {
 	if fd != nil {
 		info := fc.pkg.TypesInfo
 		good := false
+		why := "the output path handed to Process is not the -file IN=OUT value or genFilename(input path)"
+		tables := map[types.Object]bool{} // the -file tables the output path is looked up in
 		if proc != nil {
 			if o := astx.IdentObj(info, proc.Args[2]); o != nil {
 				good = true
@@ -272,10 +274,16 @@ func (c *ctx) fileWrites() {
 					case *ast.IndexExpr: // outputs[name]
 						if !isMapType(info.TypeOf(r.X)) {
 							good = false
+						} else if mo := astx.IdentObj(info, r.X); mo != nil {
+							tables[mo] = true
 						}
 					case *ast.CallExpr:
 						if fn := astx.Callee(info, r); fn == nil || fn.Name() != "genFilename" {
 							good = false
+						} else if len(r.Args) != 1 || !c.isProcessedPath(fc, fd, proc, r.Args[0]) {
+							// the default name must be derived from the path of the very file handed to Process
+							good = false
+							why = "the default output name is not computed from the path of the file being processed"
 						}
 					default:
 						good = false
@@ -283,7 +291,62 @@ func (c *ctx) fileWrites() {
 				})
 			}
 		}
-		c.s.Check(good, "G4", "main.run|Process gets -file's OUT or genFilename(path)", c.pos(fd), "", "the output path handed to Process is not the -file IN=OUT value or genFilename(input path)")
+		// the table holds nothing but what the user wrote after `=`: every value stored in it is the Output field of a -file pair
+		for _, f2 := range c.files {
+			if f2.pkg != fc.pkg {
+				continue
+			}
+			astx.Writes(f2.file, func(l ast.Expr, at ast.Node) {
+				ix, ok := astx.Unparen(l).(*ast.IndexExpr)
+				if !ok || !tables[astx.IdentObj(f2.pkg.TypesInfo, ix.X)] {
+					return
+				}
+				as, ok := at.(*ast.AssignStmt)
+				if !ok || len(as.Rhs) != len(as.Lhs) {
+					good = false
+					return
+				}
+				for i := range as.Lhs {
+					if as.Lhs[i] != l {
+						continue
+					}
+					isOut := func(e ast.Expr) bool {
+						_, f, ok := astx.FieldSel(f2.pkg.TypesInfo, e)
+						return ok && f.Name() == "Output"
+					}
+					okVal := isOut(as.Rhs[i])
+					if vo := astx.IdentObj(f2.pkg.TypesInfo, as.Rhs[i]); vo != nil && !okVal {
+						// a local that only ever holds the pair's Output
+						okVal = true
+						nw := 0
+						if efd := f2.funcDecl(at); efd != nil {
+							astx.Writes(efd.Body, func(l2 ast.Expr, at2 ast.Node) {
+								if astx.IdentObj(f2.pkg.TypesInfo, l2) != vo {
+									return
+								}
+								nw++
+								as2, ok := at2.(*ast.AssignStmt)
+								if !ok || len(as2.Lhs) != len(as2.Rhs) {
+									okVal = false
+									return
+								}
+								for k := range as2.Lhs {
+									if as2.Lhs[k] == l2 && !isOut(as2.Rhs[k]) {
+										okVal = false
+									}
+								}
+							})
+						}
+						okVal = okVal && nw > 0
+					}
+					if !okVal {
+						good = false
+						why = "the -file table is filled with something other than the OUT the user gave (`" + astx.Short(as.Rhs[i]) + "`): a default computed from the bare IN name is relative to the working directory, not to the source file"
+					}
+				}
+			})
+		}
+		c.s.Check(good, "G4", "main.run|Process gets -file's OUT or genFilename(path)", c.pos(fd), "", why)
 		// the -file table is read-only while packages are processed
 		if proc != nil {
 			var pkgLoop ast.Stmt
@@ -590,4 +653,32 @@ func (c *ctx) assignability() {
 			c.s.Unk("G8", key, c.pos(call), fmt.Sprintf("cannot attribute operands (%s, %s) to value/slot", a, b))
 		}
 	})
+}
+
+// isProcessedPath: e names the path of the file handed to Process: the value variable of the range over
+// X.CompiledGoFiles that encloses the Process call, whose index selects the syntax tree passed to it.
+func (c *ctx) isProcessedPath(fc *fileCtx, fd *ast.FuncDecl, proc *ast.CallExpr, e ast.Expr) bool {
+	info := fc.pkg.TypesInfo
+	o := astx.IdentObj(info, e)
+	if o == nil {
+		return false
+	}
+	for x := fc.par[proc]; x != nil && x != ast.Node(fd); x = fc.par[x] {
+		rs, ok := x.(*ast.RangeStmt)
+		if !ok || rs.Value == nil || astx.IdentObj(info, rs.Value) != o {
+			continue
+		}
+		se, ok := astx.Unparen(rs.X).(*ast.SelectorExpr)
+		if !ok || se.Sel.Name != "CompiledGoFiles" {
+			return false
+		}
+		// Process(_, X.Syntax[key], _) with the same X and the range key
+		ix, ok := astx.Unparen(proc.Args[1]).(*ast.IndexExpr)
+		if !ok || rs.Key == nil || astx.IdentObj(info, ix.Index) != astx.IdentObj(info, rs.Key) {
+			return false
+		}
+		s2, ok := astx.Unparen(ix.X).(*ast.SelectorExpr)
+		return ok && astx.Same(info, s2.X, se.X)
+	}
+	return false
 }
